@@ -232,6 +232,16 @@ def labels(tier, seed):
             for d in degs:
                 for bass in (basses if root == 'C' else [None, rng.choice(basses[1:])]):
                     yield mk(root, sh, [d], bass)
+    # long runs of accidentals (the grammar allows any number): degrees far below / above the octave, in the list and in the bass
+    for k in (5, 11, 12, 13, 14, 15, 25):
+        for acc in ('b' * k, '#' * k):
+            for n in (1, 2, 5, 7, 9, 13):
+                for sh in (None, 'maj', 'min7'):
+                    yield mk('C', sh, [acc + str(n)], None)
+                    yield mk('A#', sh, ['*' + acc + str(n)], None)
+                    yield mk('G', sh, ['3', acc + str(n)], '5')
+                yield mk('D', 'maj', None, acc + str(n))
+            yield mk('C' + acc, 'maj', None, None)
     n2 = 3000 if tier == 'quick' else 60000
     for _ in range(n2):
         yield mk(rng.choice(roots_all), rng.choice(shorts), rng.sample(degs, rng.choice([2, 2, 3])), rng.choice(basses))
